@@ -14,8 +14,7 @@ Next == UNCHANGED cell
 Spec == Init /\ [][Next]_cell
 C == [cell EXCEPT !.cl = cell.cl] @@ [clv |-> ClVal(cell.cl)]
 TableTotal == Modes(C) # {} /\ Cardinality(Modes(C)) <= 2
-AmbiguousOnlyWhereStated ==
-  Cardinality(Modes(C)) = 2 => (IsRedirectStatus(cell.status) /\ cell.cl = "absent" /\ cell.te # "absent")
+AmbiguousOnlyWhereStated == Cardinality(Modes(C)) = 1
 ImplAdmissible == ImplMode(C, Defects) \in Modes(C)
 SuccessorTotal == \A m \in Modes(C) : AfterHead(m, cell.status) \in {"RecvBody", "Redirect", "Cleanup"}
 =============================================================================
